@@ -694,6 +694,18 @@ def run_log_softmax_representation(ctx):
         reqs.append(f'C06.logSoftmaxPattern {et} {dim} {len(ids) + 5}')
         meta.append((case, pat, r.physical.contiguous().reshape(-1).tolist() if r.physical.numel() else [], float(r.default)))
         ctx.count('log-softmax-representation')
+        # norm(p, dim, keepdim): the model It.reduceDense (pattern exactly, values through a floating-point p-norm)
+        pn, keep = ctx.rng.choice([1, 2]), ctx.rng.random() < 0.5
+        try:
+            rn = t.norm(pn, dim, keepdim=keep)
+        except Exception as e:  # noqa
+            ctx.fail(f'norm raised {type(e).__name__}: {str(e)[:80]}', dict(case, op='norm'), repr(e), None, tags=['raises', 'norm', type(e).__name__])
+            continue
+        ids3 = {}
+        patn = f'{enc_list(rn.paxes, lambda k_: "P " + str(ids3.setdefault(id(k_), len(ids3))) + " " + str(k_._numel))} {enc_list(rn.vaxes, lambda e: ea(e, ids3))}'
+        reqs.append(f'C06.normPattern {et} {dim} {"T" if keep else "F"} {pn} {len(ids) + 5}')
+        meta.append((dict(case, op=f'norm p={pn} keepdim={keep}'), patn, rn.physical.contiguous().reshape(-1).tolist() if rn.physical.numel() else [], float(rn.default)))
+        ctx.count('norm-representation')
     for (case, pat, vals, dflt), rep in zip(meta, ctx.driver.ask_many(reqs)):
         if isinstance(rep, Exception):
             raise rep
@@ -703,11 +715,15 @@ def run_log_softmax_representation(ctx):
         toks = rep.split()[1:]
         L = int(toks[0]); mv = [fl(x) for x in toks[1:1 + L]]; i = 1 + L
         P = int(toks[i]); pax = toks[i + 1:i + 1 + 2 * P]; i += 1 + 2 * P
-        mp = [str(P)] + sum((['P', pax[2 * j], pax[2 * j + 1]] for j in range(P)), []) + toks[i:-2]
-        if canon(mp) != canon(pat.split()) or toks[-1] != 'T':
-            ctx.disagree('It.alongDense: pattern of log_softmax(dim)', case, pat, ' '.join(mp)); continue
-        if len(mv) != len(vals) or not all(close(a, b) for a, b in zip(mv, vals)) or not close(fl(toks[-2]), dflt):
-            ctx.disagree('It.alongDense with a floating-point log_softmax: physical values / default', case, dict(vals=vals, default=dflt), dict(vals=mv, default=fl(toks[-2])))
+        is_norm = case['op'].startswith('norm')
+        tail = toks[i:-1] if is_norm else toks[i:-2]
+        dbits = toks[-1] if is_norm else toks[-2]
+        mp = [str(P)] + sum((['P', pax[2 * j], pax[2 * j + 1]] for j in range(P)), []) + tail
+        if canon(mp) != canon(pat.split()) or (not is_norm and toks[-1] != 'T'):
+            ctx.disagree('It.alongDense / It.reduceDense: pattern of ' + case['op'], case, pat, ' '.join(mp)); continue
+        if len(mv) != len(vals) or not all(close(a, b) for a, b in zip(mv, vals)) or not close(fl(dbits), dflt):
+            ctx.disagree('It.alongDense / It.reduceDense with a floating-point function: physical values / default of ' + case['op'], case,
+                         dict(vals=vals, default=dflt), dict(vals=mv, default=fl(dbits)))
 
 
 def run_unit_factors(ctx, reqs, meta):
